@@ -419,28 +419,43 @@ def gen_name(rng):
 
 
 def gen_string(rng):
-    """(lexeme, value) of a quoted string."""
-    lex, val = ['"'], []
+    """(lexeme, value) of a quoted string. `\\uXXXX` escapes are UTF-16 code units: a high-surrogate escape DIRECTLY followed
+    by a low-surrogate escape is one astral character (fix C02-U1); unpaired escapes and literal surrogates stay as they are."""
+    pieces = []     # (lexeme text, kind, code) ; kind "u" = \uXXXX escape
     for _ in range(rng.choice([0, 1, 2, 3, 6, 12])):
         k = rng.random()
-        if k < 0.55:
+        if k < 0.5:
             c = rng.choice(STR_CHARS) if rng.random() < 0.7 else chr(rng.choice([rng.randrange(0x20, 0x7f), rng.randrange(0xa0, 0xd800), rng.randrange(0xe000, 0x110000)]))
+            if rng.random() < 0.06:
+                c = chr(rng.choice([0xD83D, 0xDE00, 0xD800, 0xDFFF]))       # literal lone surrogate: never combined
             if c in '"\\':
                 continue
-            lex.append(c)
-            val.append(c)
-        elif k < 0.8:
+            pieces.append((c, "lit", ord(c)))
+        elif k < 0.72:
             e = rng.choice(list(ESCAPES))
-            lex.append("\\" + e)
-            val.append(ESCAPES[e])
+            pieces.append(("\\" + e, "esc", ord(ESCAPES[e])))
         else:
-            n = rng.choice([0, 0x41, 0xD800, 0xDFFF, 0xFFFF, 0x2028, 0x22, 0x5C, 0x0A, rng.randrange(0x10000)])
-            h = "%04x" % n
-            h = "".join(rng.choice([ch.upper(), ch]) for ch in h)
-            lex.append("\\u" + h)
-            val.append(chr(n))
-    lex.append('"')
-    return "".join(lex), "".join(val)
+            units = [rng.choice([0, 0x41, 0xD800, 0xDFFF, 0xFFFF, 0x2028, 0x22, 0x5C, 0x0A, 0xD83D, 0xDE00, 0xDBFF, 0xDC00, rng.randrange(0x10000)])]
+            if rng.random() < 0.35:
+                units = [rng.randrange(0xD800, 0xDC00), rng.randrange(0xDC00, 0xE000)]          # a proper pair
+            elif rng.random() < 0.2:
+                units = [rng.randrange(0xDC00, 0xE000), rng.randrange(0xD800, 0xDC00)]          # low then high: no pair
+            elif rng.random() < 0.2:
+                units = [rng.randrange(0xD800, 0xDC00), rng.randrange(0xD800, 0xDC00), rng.randrange(0xDC00, 0xE000)]
+            for n in units:
+                h = "".join(rng.choice([ch.upper(), ch]) for ch in "%04x" % n)
+                pieces.append(("\\u" + h, "u", n))
+    val = []
+    i = 0
+    while i < len(pieces):
+        _, kind, code = pieces[i]
+        if kind == "u" and 0xD800 <= code <= 0xDBFF and i + 1 < len(pieces) and pieces[i + 1][1] == "u" and 0xDC00 <= pieces[i + 1][2] <= 0xDFFF:
+            val.append(chr(0x10000 + ((code - 0xD800) << 10) + (pieces[i + 1][2] - 0xDC00)))
+            i += 2
+        else:
+            val.append(chr(code))
+            i += 1
+    return '"' + "".join(p[0] for p in pieces) + '"', "".join(val)
 
 
 def gen_block_raw(rng):
@@ -573,7 +588,8 @@ EDGE = [
     "1e", "1e+", "1e-", "1ee1", "1.5e", "1_", "1a", "1e1a", "1.0_", "0a", "0_", "0.", "0e", "1..2", "1...", "1 ...", "1,2", "1-2", "1- 2", "0-0",
     "\ufeff", "\ufeff{a}", "{\ufeffa\ufeff}", "a\ufeffb", "1\ufeff2", "\"\ufeff\"", "#\ufeff\n1", "...\ufeff...", ".\ufeff..",
     "\u2028", "a\u2028b", "\u2029", "\x85", "\xa0", "a\xa0b", "\u2003", "\u200b", "\x0b", "\x0c", "\x1c", "\x00", "\x01a", "a\x1f", "\x7f", "a\x7fb",
-    "\"\\ud800\"", "\"\\uD800\\uDC00\"", "\"\\udfff\"", "\"\ud800\"", "\ud800", "#\ud800\n", "\"\"\"\ud800\"\"\"",
+    "\"\\ud800\"", "\"\\uD800\\uDC00\"", "\"\\uD83D\\uDE00\"", "\"\\ud83d\\ude00x\"", "\"\\uD83D\\u0041\"", "\"\\uD83D\ude00\"", "\"\ud83d\\uDE00\"", "\"\\uDE00\\uD83D\"",
+    "\"\\uD83D\\uD83D\\uDE00\"", "\"\\uD83D \\uDE00\"", "\"\\uD83D\\n\\uDE00\"", "\"\\uD83D\\uDE0\"", "\"\\uD83D\\uDE0g\"", "\"\\uD83D\\UDE00\"", "\"\\uDBFF\\uDFFF\"", "\"\\uD83D\\uDE00", "\"\\udfff\"", "\"\ud800\"", "\ud800", "#\ud800\n", "\"\"\"\ud800\"\"\"",
     "\"\\u0663\u0662\u0661\u0660\"", "\"\\u\u0661\u0662\u0663\u0664\"", "\"\\u0x12\"", "\"\\u123 \"", "\"\\u123\n\"", "\"\\u 123\"", "\"\\u+123\"", "\"\\u12_3\"",
     "\"\\u00g0\"", "\"\\uabcd\"", "\"\\uABCD\"", "\"\\uAbCd\"", "\"\\u123\"", "\"\\u12345\"", "\"\\U0041\"", "\"\\x41\"", "\"\\a\"", "\"\\'\"", "\"\\\n\"",
     "\"", "\"\"", "\"\"\"", "\"\"\"\"", "\"\"\"\"\"", "\"\"\"\"\"\"", "\"\"\"\"\"\"\"", "\"a", "\"a\n\"", "\"a\r\"", "\"\t\"", "\"\x00\"", "\"\x7f\"", "\"\x1f\"",
